@@ -206,6 +206,33 @@ static void project() {
     o += "]";
     emit(o);
   }
+  if (g_proj.count("world")) {
+    // structural walk: every scenario object (name prefix obj/w) in obj_list with its super and contains
+    // chain, the destructed list, and the name-table lookup of every such object
+    std::string o = "\"e\":\"World\",\"l\":[";
+    bool first = true;
+    for (object_t *ob = obj_list; ob; ob = ob->next_all) {
+      if (strncmp(ob->name, "obj/w", 5) != 0) continue;
+      if (!first) o += ","; first = false;
+      std::string inv = "[";
+      int guard = 0;
+      for (object_t *c = ob->contains; c && guard < 1000; c = c->next_inv, guard++) { if (guard) inv += ","; inv += jstr(c->name); }
+      inv += "]";
+      object_t *f = find_object_by_name(ob->name);
+      o += "{\"n\":" + jstr(ob->name) + ",\"env\":" + (ob->super ? jstr(ob->super->name) : std::string("\"0\"")) +
+           ",\"inv\":" + inv + ",\"dead\":" + ((ob->flags & O_DESTRUCTED) ? "1" : "0") + ",\"found\":" + (f == ob ? "1" : "0") + "}";
+    }
+    o += "],\"dlist\":[";
+    first = true;
+    for (object_t *ob = obj_list_destruct; ob; ob = ob->next_all) {
+      if (strncmp(ob->name, "obj/w", 5) != 0) continue;
+      if (!first) o += ","; first = false;
+      object_t *f = find_object_by_name(ob->name);
+      o += "{\"n\":" + jstr(ob->name) + ",\"found\":" + (f ? "1" : "0") + ",\"env\":" + (ob->super ? "1" : "0") + ",\"inv\":" + (ob->contains ? "1" : "0") + "}";
+    }
+    o += "]";
+    emit(o);
+  }
   if (g_proj.count("regs")) {
     snprintf(b, sizeof b, "\"e\":\"Regs\",\"sp\":%ld,\"csp\":%ld,\"ctx\":%d,\"cgd\":%d,\"inerr\":%d,\"inmeh\":%d,\"nobj\":%d,\"rd\":%d,\"es\":%d,\"cg\":%s,\"co\":%s",
              (long)(sp - start_of_stack), (long)(csp - control_stack), verif_error_context_depth(),
@@ -683,7 +710,9 @@ int main(int argc, char **argv) {
     rep += "]";
     int ex = WIFEXITED(st) ? WEXITSTATUS(st) : -1, sig = WIFSIGNALED(st) ? WTERMSIG(st) : 0;
     if (sig == SIGALRM || ex == 97 || flood) ntimeouts++;
-    fprintf(out, "{\"e\":\"End\",\"id\":\"%s\",\"exit\":%d,\"sig\":%d,\"nreports\":%zu,\"asan\":%s}\n", sc.first.c_str(), ex, sig, reports.size(), rep.c_str());
+    std::string rawtxt;
+    if (!reports.empty()) { size_t q0 = all.find("ERROR: AddressSanitizer"); if (q0 == std::string::npos) q0 = all.find("runtime error"); if (q0 != std::string::npos) rawtxt = all.substr(q0 > 200 ? q0 - 200 : 0, 6000); }
+    fprintf(out, "{\"e\":\"End\",\"id\":\"%s\",\"exit\":%d,\"sig\":%d,\"nreports\":%zu,\"asan\":%s,\"raw\":%s}\n", sc.first.c_str(), ex, sig, reports.size(), rep.c_str(), jstr(rawtxt).c_str());
   }
   fclose(out);
   return 0;
